@@ -121,3 +121,10 @@ claim("C17",
        "One recorded finding: the trailer is listed but never emitted (cannot be repaired without failing a pinned test). Not decided: canonical text beyond the codec table.",
   note="Trusted: go/ssa; the layout model (seq.go); the frozen codec table (strconv/time inverse pairs).",
   design_ref="DESIGN.md §3 C17, §2 E5/E8")
+
+claim("C18",
+  technique="static needle-shape analysis: byte-layout inference of the needle of every bytes/strings search call in the decoder, ValueByTag and the connection reader; positional checks of the group separator's slice bounds; who-may-search census",
+  text="For every message content at once: every tag-derived needle is SOH·tag·'=' when searched inside a buffer, or tag·'=' when compared with the start of a buffer that begins at a field boundary; the repeating-group separator is taken at the delimiter after the count field and ends with the first '='; "
+       "the end-of-message tag is compared only with the start of a delimiter-terminated segment; packages root and session inspect raw bytes only through ValueByTag/Unmarshal with configured tags. Anchoring is decided; which of several well-anchored occurrences (duplicate tags) is chosen is not.",
+  note="Trusted: go/ssa; the layout model (seq.go) for needles; bytes.Index/HasPrefix semantics.",
+  design_ref="DESIGN.md §3 C18, §2 E7")
